@@ -504,6 +504,42 @@ func familyJwt(t *testing.T) {
 					}
 				}
 			}
+			// static-kid rotation: the provider replaces the key material it publishes under a kid it keeps. Once the key set the
+			// instance holds has run out (one hour), a token signed with the retired material verifies nowhere any more, and one
+			// signed with the new material under the same kid is as good as any
+			if issuers[ksi] == "" {
+				old := ks[0]
+				var repl *signKey
+				for _, n := range []string{"rsa2048b", "rsa3072", "rsa2048a", "p256b", "p256a"} {
+					c := K[n]
+					inSet := false
+					for _, o := range ks {
+						inSet = inSet || o == c
+					}
+					if !inSet && c.fam == old.fam && (c.fam == "RSA" || c.crv == old.crv) {
+						repl = c
+						break
+					}
+				}
+				if repl != nil {
+					nk := *repl
+					nk.kid, nk.name = old.kid, repl.name+"-under-"+old.kid
+					present(old.name+": before the kid is re-keyed", stdToken(old, M{"iss": curIssuer, "aud": "cid", "exp": time.Now().Add(3 * time.Hour).Unix(), "iat": time.Now().Unix(), "sub": "before-rekey"}))
+					newKs := append([]*signKey{&nk}, ks[1:]...)
+					p.mu.Lock()
+					p.keys = newKs
+					p.mu.Unlock()
+					ks = newKs
+					vsleep(61*time.Minute + time.Duration(rng.Intn(1200))*time.Second)
+					mk := func(k *signKey, sub string) string {
+						return stdToken(k, M{"iss": curIssuer, "aud": "cid", "exp": time.Now().Add(30 * time.Minute).Unix(), "iat": time.Now().Unix(), "sub": sub})
+					}
+					present(old.name+": signed with key material the provider has retired, under a kid it still publishes", mk(old, "retired-material"))
+					present(nk.name+": signed with the new key material under a kept kid", mk(&nk, "new-material"))
+					present(old.name+": retired material again", mk(old, "retired-material-2"))
+					T.stat("jwt.static-kid-rotations")
+				}
+			}
 			// raw malformed stream
 			for i := 0; i < T.size(150, 1500); i++ {
 				n := []int{0, 1, 5, 40, 300, 5000}[rng.Intn(6)]
